@@ -311,6 +311,19 @@ def run_c09(case, fail):
             fail("C09.proba_depends_on_encoding", f"classes {cl}, missing_label {ml!r}: {np.round(P[0], 4).tolist()} vs {np.round(base[0][0], 4).tolist()}")
         elif yp != base[1] and not _ties(base[0]):
             fail("C09.predict_depends_on_encoding", f"classes {cl}, missing_label {ml!r}")
+    if base is not None and case["model"].startswith("PWC"):
+        # which class is called what must not matter either: exchanging the names of the second and third class exchanges their columns
+        # (kernel frequency estimates treat the classes symmetrically)
+        X, y, lab, w, Xq = make_clf_data(case, [0, 1, 2], NAN)
+        swap = {0: 0.0, 1: 2.0, 2: 1.0}
+        y_sw = np.array([np.nan if l < 0 else swap[int(l)] for l in lab], dtype=float)
+        try:
+            c = fit(z["mk"](classes=[0, 1, 2], missing_label=NAN, random_state=0), X, y_sw, w)
+            P = np.asarray(c.predict_proba(Xq))[:, [0, 2, 1]]
+            if not np.allclose(P, base[0], atol=1e-8):
+                fail("C09.proba_depends_on_the_names_of_the_classes", f"second and third class exchanged: {np.round(P[0], 4).tolist()} vs {np.round(base[0][0], 4).tolist()}")
+        except Exception as e:
+            fail("C09.encoding_raised", f"classes exchanged: {type(e).__name__}: {str(e)[:100]}")
 
 
 def _ties(P):
